@@ -78,21 +78,51 @@ def callPackb (ser : String) (v : PyVal) (_options : List String) (_hasDefault :
   if ser = "ormsgpack.packb" then MsgPack.packb v else none
 
 /-- What a call of `Row.nbytes` ends in (an `int`, `None`, or the exception of `as_bytes` / of the attribute store)
-and the value of `self._cached_byte_size` afterwards: the *state of the row object*. -/
-abbrev SizeOut := Except EncErr (Option Nat) × Option Nat
+and the *state of the row object* afterwards: the value of `self._cached_byte_size`, and (round 6) the record kept on
+the object — the value of any other attribute of `self` that `nbytes` / `as_bytes` read or write (there is none on the
+tree as it is: the component is handed through unchanged; a change that keeps a record shows here). -/
+abbrev SizeOut := Except EncErr (Option Nat) × Option Nat × Option Bytes
 
 /-- `len(self.as_bytes)`: the property is evaluated (its exception ends the call), then measured. -/
 def lenOf (asBytes : Except EncErr Bytes) : Except EncErr (Option Nat) := asBytes.map (fun b => some b.length)
 
 /-- evaluate an expression that may raise, then go on with its value; an exception leaves the object as it was -/
-def bindSize (e : Except EncErr (Option Nat)) (cached : Option Nat) (k : Option Nat → SizeOut) : SizeOut :=
+def bindSize (e : Except EncErr (Option Nat)) (cached : Option Nat) (kept : Option Bytes) (k : Option Nat → SizeOut) : SizeOut :=
   match e with
-  | .error x => (.error x, cached)
+  | .error x => (.error x, cached, kept)
   | .ok v => k v
 
 /-- `self._cached_byte_size = v`: possible only on an object with a `__dict__` (see `setAttr`). -/
-def storeCached (hasDict : Bool) (cached : Option Nat) (v : Option Nat) (k : Option Nat → SizeOut) : SizeOut :=
-  if hasDict then k v else (.error .attribute, cached)
+def storeCached (hasDict : Bool) (cached : Option Nat) (kept : Option Bytes) (v : Option Nat) (k : Option Nat → SizeOut) : SizeOut :=
+  if hasDict then k v else (.error .attribute, cached, kept)
+
+/-- evaluate a bytes-valued expression that may raise (`self.as_bytes`, the kept record), go on with its value
+(`none` = Python's `None`) -/
+def bindRec (e : Except EncErr (Option Bytes)) (cached : Option Nat) (kept : Option Bytes) (k : Option Bytes → SizeOut) : SizeOut :=
+  match e with
+  | .error x => (.error x, cached, kept)
+  | .ok v => k v
+
+/-- `self.<record attribute> = v`: possible only on an object with a `__dict__`. -/
+def storeKept (hasDict : Bool) (cached : Option Nat) (kept : Option Bytes) (v : Option Bytes) (k : Option Bytes → SizeOut) : SizeOut :=
+  if hasDict then k v else (.error .attribute, cached, kept)
+
+/-- `len(x)` of a value that is `bytes` or `None` (`TypeError` for `None`, rendered as the codec's error kind) -/
+def lenOpt : Option Bytes → Except EncErr (Option Nat)
+  | some b => .ok (some b.length)
+  | none => .error .codec
+
+/-- `return x` in `as_bytes` of a value that is `bytes` or `None`: the caller gets the record (`None` is no record;
+rendered as the codec's error kind — never reached when the return is guarded by `x is not None`) -/
+def retKept : Option Bytes → Except EncErr Bytes
+  | some b => .ok b
+  | none => .error .codec
+
+/-- Python truthiness of `None` / a `bytes` object: `None` and `b""` are false. -/
+def truthyRec : Option Bytes → Bool
+  | none => false
+  | some [] => false
+  | _ => true
 
 /-- Python truthiness of `None` / an `int`: `None` and `0` are false. -/
 def truthy : Option Nat → Bool
@@ -112,10 +142,14 @@ def addSize (a b : Except EncErr (Option Nat)) : Except EncErr (Option Nat) :=
   | .ok (some x), .ok (some y) => .ok (some (x + y))
   | _, _ => .error .codec
 
-/-- orso/row.py:144-147 as it is: size the row once, keep the size on the object. -/
-def nbytesModel (hasDict : Bool) (cached : Option Nat) (asBytes : Except EncErr Bytes) : SizeOut :=
+/-- orso/row.py:144-147 as it is: size the row once, keep the size on the object.  The answer and the size kept
+afterwards; what else the function may keep on the object (`SizeOut`'s third component) is not part of this description:
+only what `as_bytes` does with it matters, and that is stated of `as_bytes`. -/
+def nbytesModel (hasDict : Bool) (cached : Option Nat) (asBytes : Except EncErr Bytes) : Except EncErr (Option Nat) × Option Nat :=
   if cached = none then
-    bindSize (lenOf asBytes) cached (fun v => storeCached hasDict cached v (fun cached => (.ok cached, cached)))
+    match asBytes with
+    | .error x => (.error x, cached)
+    | .ok b => if hasDict then (.ok (some b.length), some b.length) else (.error .attribute, cached)
   else (.ok cached, cached)
 
 /-- The argument of `cls(data)`: a tuple / list of items, or a dictionary (`exact`: `type(data) is dict`, not a
